@@ -418,7 +418,7 @@ def run(chk):
             if later is not None:
                 chk.broken("tLweSymEncryptZero: the noise is added to b after the products (line %s), an arrangement this rule does not decide" % later["line"])
         if stz == "proved":
-            once = summ.value_not_redrawn(zfp, sym.arrow(P(zr, "b"), "coefsT"), lambda c_: c_["name"] == "gaussian32" or c_["name"].endswith("operator()"))
+            once = summ.value_not_redrawn(zps, sym.arrow(P(zr, "b"), "coefsT"), lambda c_: c_["name"] == "gaussian32" or c_["name"].endswith("operator()"))
             if once is not None:
                 stz, detz = "refuted", ("the Gaussian stored by the statement at line %s is drawn once, outside the loop that stores it: all %s "
                                         "coefficients of b receive the same error value (in-row variance 0)" % (once["line"], "N"))
@@ -450,7 +450,7 @@ def run(chk):
             ms = [p for p in summ.forward_local_arrays(summ.forward_stored_calls(ps)) if not p.get("byref")]
             stm, detm, nm_ = coverage.filled_by(ms, P(r, "a"), sym.arrow(P(ky, "params"), "n"), fresh_uniform)
             if stm == "proved":
-                once = summ.value_not_redrawn(ms, P(r, "a"), lambda c_: "operator()" in c_["name"])
+                once = summ.value_not_redrawn(ps, P(r, "a"), lambda c_: "operator()" in c_["name"])
                 if once is not None:
                     stm, detm = "refuted", "the value stored by the statement at line %s is drawn once, outside the loop that stores it: every mask coefficient is the same" % once["line"]
             if stm == "unknown":
